@@ -54,6 +54,9 @@ def _common_config(rng, profile):
     files = FILE_NAMES[:]
     rng.shuffle(files)
     files = files[:nfiles]
+    if profile == 'stale' and rng.random() < 0.12:
+        # path aliasing: a `..` path through a symlinked directory next to its lexical twin
+        files = [f for f in files if f not in ('src/a/mod.py', 'src/mod.py')][:2] + ['src/link/../mod.py', 'src/mod.py']
     ng = rng.choice([1, 1, 2, 3])
     grammars = rng.sample(corpus.VERSIONS, ng)
     cfg = {
